@@ -307,3 +307,123 @@ Proof.
   - apply toks_eqb_eq. eapply layout_ok_toks. eassumption.
   - rewrite Hpf, Hfa. reflexivity.
 Qed.
+
+(* ---------------------------------------------------------------- the marked printer *)
+
+Lemma fst_keep_all : forall l, map fst (keep_all l) = l.
+Proof. induction l as [|x l IH]; [reflexivity|]. cbn. unfold keep_all in IH. rewrite IH. reflexivity. Qed.
+Lemma fst_del_all : forall l, map fst (del_all l) = l.
+Proof. induction l as [|x l IH]; [reflexivity|]. cbn. unfold del_all in IH. rewrite IH. reflexivity. Qed.
+Lemma kept_keep_all : forall l, map fst (filter snd (keep_all l)) = l.
+Proof. induction l as [|x l IH]; [reflexivity|]. cbn. unfold keep_all in IH. rewrite IH. reflexivity. Qed.
+Lemma kept_del_all : forall l, map fst (filter snd (del_all l)) = [].
+Proof. induction l as [|x l IH]; [reflexivity|]. cbn. exact IH. Qed.
+
+Lemma fst_mark_body : forall ret b,
+  map fst (mark_body ret b) =
+  match b with Some x => (if ret then [tI "returns"] else []) ++ pr_body x | None => [] end.
+Proof. intros ret [[x|]|]; unfold mark_body; rewrite ?fst_keep_all, ?fst_del_all; reflexivity. Qed.
+
+Lemma kept_mark_body : forall ret b,
+  map fst (filter snd (mark_body ret b)) =
+  match norm_body b with Some x => (if ret then [tI "returns"] else []) ++ pr_body x | None => [] end.
+Proof. intros ret [[x|]|]; unfold mark_body, norm_body; rewrite ?kept_keep_all, ?kept_del_all; reflexivity. Qed.
+
+Lemma pr_item_doc : forall i,
+  pr_item i = match i_doc i with Some d => pr_doc d | None => [] end ++
+              [tPn KAtHandler "@handler"; tI (i_handler i)] ++ pr_route (i_route i).
+Proof. intros [[[x|l]|] h r]; reflexivity. Qed.
+
+Lemma fst_mark_item : forall i, map fst (mark_item i) = pr_item i.
+Proof.
+  intros i. rewrite pr_item_doc. unfold mark_item. rewrite !map_app, fst_keep_all, !fst_mark_body.
+  f_equal.
+  destruct (i_doc i) as [d|]; [|reflexivity]. destruct (norm_doc (Some d)); [apply fst_keep_all|apply fst_del_all].
+Qed.
+
+Lemma kept_mark_item : forall i, map fst (filter snd (mark_item i)) = pr_item (norm_item i).
+Proof.
+  intros i. rewrite pr_item_doc. unfold mark_item.
+  rewrite !filter_app, !map_app, kept_keep_all, !kept_mark_body.
+  unfold norm_item. cbn [i_doc i_handler i_route]. f_equal.
+  destruct (i_doc i) as [d|]; [|reflexivity].
+  destruct (norm_doc (Some d)) as [d'|] eqn:E; [|apply kept_del_all].
+  rewrite kept_keep_all. destruct d as [x|l]; cbn [norm_doc] in E.
+  - destruct (zero_text x); inversion E; reflexivity.
+  - destruct (kvs_all_zero l); inversion E; reflexivity.
+Qed.
+
+Lemma flat_map_map_fst : forall (its : list item),
+  map fst (flat_map mark_item its) = flat_map pr_item its.
+Proof.
+  induction its as [|i its IH]; [reflexivity|].
+  change (flat_map mark_item (i :: its)) with (mark_item i ++ flat_map mark_item its).
+  change (flat_map pr_item (i :: its)) with (pr_item i ++ flat_map pr_item its).
+  rewrite map_app, fst_mark_item. f_equal. exact IH.
+Qed.
+
+Lemma flat_map_kept : forall (its : list item),
+  map fst (filter snd (flat_map mark_item its)) = flat_map pr_item (map norm_item its).
+Proof.
+  induction its as [|i its IH]; [reflexivity|].
+  change (flat_map mark_item (i :: its)) with (mark_item i ++ flat_map mark_item its).
+  change (flat_map pr_item (map norm_item (i :: its)))
+    with (pr_item (norm_item i) ++ flat_map pr_item (map norm_item its)).
+  rewrite filter_app, map_app, kept_mark_item. f_equal. exact IH.
+Qed.
+
+Lemma rb_after_map : forall (its : list item), rb_after (map norm_item its) = rb_after its.
+Proof. destruct its; reflexivity. Qed.
+
+Lemma fst_mark_stmt : forall s, map fst (mark_stmt s) = pr_stmt s.
+Proof.
+  intros s. unfold mark_stmt. destruct (norm_stmt s) eqn:E; [apply fst_del_all|].
+  destruct s as [v|l0|v|l0|e|l0|srv n a its]; try apply fst_keep_all.
+  cbn [pr_stmt]. rewrite !map_app, !fst_keep_all, flat_map_map_fst.
+  destruct srv as [kvs|];
+    [destruct (forallb (fun e : skv => sval_zero (snd e)) kvs); rewrite ?fst_del_all, ?fst_keep_all|];
+    rewrite <- ?app_assoc; reflexivity.
+Qed.
+
+Lemma kept_mark_stmt : forall s, map fst (filter snd (mark_stmt s)) = flat_map pr_stmt (norm_stmt s).
+Proof.
+  intros s. unfold mark_stmt.
+  destruct s as [v|l0|v|l0|e|l0|srv n a its]; cbn [norm_stmt].
+  - cbn [flat_map]. rewrite kept_keep_all, app_nil_r. reflexivity.
+  - destruct (kvs_all_zero l0); [apply kept_del_all|]. cbn [flat_map]. rewrite kept_keep_all, app_nil_r. reflexivity.
+  - destruct (zero_text v); [apply kept_del_all|]. cbn [flat_map]. rewrite kept_keep_all, app_nil_r. reflexivity.
+  - destruct (forallb zero_text l0); [apply kept_del_all|]. cbn [flat_map]. rewrite kept_keep_all, app_nil_r. reflexivity.
+  - cbn [flat_map]. rewrite kept_keep_all, app_nil_r. reflexivity.
+  - destruct l0; [apply kept_del_all|]. cbn [flat_map]. rewrite kept_keep_all, app_nil_r. reflexivity.
+  - cbn [flat_map pr_stmt]. rewrite app_nil_r.
+    rewrite !filter_app, !map_app, !kept_keep_all, flat_map_kept, rb_after_map.
+    destruct srv as [kvs|];
+      [destruct (forallb (fun e : skv => sval_zero (snd e)) kvs); rewrite ?kept_del_all, ?kept_keep_all|];
+      rewrite <- ?app_assoc; reflexivity.
+Qed.
+
+(* the tokens of the marked printer are the printed tokens, and the kept ones are exactly what
+   the model formatter prints *)
+Lemma mark_tokens : forall a, map fst (mark a) = print a.
+Proof.
+  induction a as [|s a IH]; [reflexivity|].
+  change (mark (s :: a)) with (mark_stmt s ++ mark a). change (print (s :: a)) with (pr_stmt s ++ print a).
+  rewrite map_app, fst_mark_stmt. f_equal. exact IH.
+Qed.
+
+Lemma mark_kept : forall a, map fst (filter snd (mark a)) = print (norm a).
+Proof.
+  induction a as [|s a IH]; [reflexivity|].
+  change (mark (s :: a)) with (mark_stmt s ++ mark a).
+  change (norm (s :: a)) with (norm_stmt s ++ norm a).
+  unfold print in *. rewrite flat_map_app, filter_app, map_app, kept_mark_stmt. f_equal. exact IH.
+Qed.
+
+Lemma tokl_list_refl : forall l,
+  list_eqb (fun x y : token => tok_eqb x y && Bool.eqb (tnl x) (tnl y)) l l = true.
+Proof.
+  induction l as [|t l IH]; [reflexivity|]. cbn [list_eqb]. rewrite tok_eqb_refl, Bool.eqb_reflx, IH. reflexivity.
+Qed.
+
+Lemma mark_consistent_true : forall a, mark_consistent a = true.
+Proof. intros a. unfold mark_consistent. rewrite mark_tokens, mark_kept, !tokl_list_refl. reflexivity. Qed.
